@@ -273,6 +273,18 @@ def wide_result(bop, A, B, n=2):
     return W, bool(ok and nice(W))
 
 
+def scrub_numpy_cache():
+    """Fill the blocks numpy keeps for re-use (its cache of small data blocks: 7 per size below 1 KiB)
+    with the byte 0x5A.  py-pde allocates padded arrays with `np.empty`; what their ghost cells hold
+    before anybody writes them is whatever the previous owner of the block left there - after a run
+    of the same script in the same process (shrinking!) that is the very value a defective write
+    would store, and the write goes unnoticed.  Together with MALLOC_PERTURB_=165 in the environment
+    of the worker interpreters (glibc fills every block it hands out with 0x5A) never-written cells
+    start every history with the same, impossible content."""
+    keep = [np.full(n, 0x5A, dtype=np.uint8) for n in range(4, 1024, 4) for _ in range(8)]
+    del keep
+
+
 class World:
     """real objects + bookkeeping; `apply(opdesc)` executes one operation on the real code, records
     the corresponding model operation(s), the observation and evaluates the monitors"""
@@ -280,6 +292,7 @@ class World:
     def __init__(self, gspecs, monitors=True):
         import pde
         logging.getLogger("pde").setLevel(logging.ERROR)
+        scrub_numpy_cache()
         self.pde = pde
         self.gspecs = gspecs
         self.grids = [make_grid(s) for s in gspecs]
@@ -1956,7 +1969,7 @@ def current_mode():
 
 
 def mode_env(mode):
-    return {"NUMBA_DISABLE_JIT": "0" if mode.get("jit", True) else "1"}
+    return {"NUMBA_DISABLE_JIT": "0" if mode.get("jit", True) else "1", "MALLOC_PERTURB_": "165"}
 
 
 def enter_mode(mode):
@@ -2233,7 +2246,7 @@ def run(ctx):
     for k in range(procs):
         jit = k < procs // 2
         jobs.append((f"C15:{ctx.seed}:{ctx.rng.getrandbits(64)}:{k}", per, ctx.budget(12, 40) if jit else 0, jit))
-    results = run_many("harness.c15", "worker", jobs, procs=procs, workdir=ctx.workdir)
+    results = run_many("harness.c15", "worker", jobs, procs=procs, workdir=ctx.workdir, env={"MALLOC_PERTURB_": "165"})
     mfails, dis = [], []
     for r in results:
         if isinstance(r, str):
